@@ -374,12 +374,17 @@ def _shard(cases):
         return asyncio.run(go())
 
 
-def run_impl(cases):
+def run_impl(cases, after_fork=None):
+    """after_fork: called once the shard processes exist (threads are started only then: no fork with threads)"""
     n = min(12, max(1, len(cases) // 150))
     if n <= 1:
+        if after_fork:
+            after_fork()
         return _shard(cases)
     shards = [cases[i::n] for i in range(n)]
     with mp.get_context("fork").Pool(n) as pool:
+        if after_fork:
+            after_fork()
         parts = pool.map(_shard, shards)
     out = [None] * len(cases)
     for i, part in enumerate(parts):
@@ -584,8 +589,7 @@ def check_cases(chk, cases, replay=False):
             box["err"] = e
 
     th = threading.Thread(target=_model)   # the model runs in subprocesses while the shards run the implementation
-    th.start()
-    impls = run_impl([strip(c) for c in cases])
+    impls = run_impl([strip(c) for c in cases], after_fork=th.start)
     th.join()
     if "err" in box:
         raise box["err"]
